@@ -258,7 +258,11 @@ func (c *Ctx) note(format string, a ...any) { c.notes = append(c.notes, fmt.Spri
 // floor enforces the hand-confirmed minimum instance count of a rule.
 func (c *Ctx) floor(rule string, got, want int) {
 	if got < want {
-		fatalf("rule %s matched %d instances, below the confirmed floor %d — a rule that matches nothing passes vacuously", rule, got, want)
+		// the constructs the rule was confirmed on are gone: the structure it checks no longer exists in that form.
+		// Reported as a violation of the rule (not as a checker error): an instance that was removed is as much a
+		// finding as one that was changed.
+		c.fail(rule, rule+":instances", token.NoPos, "", fmt.Sprintf("the rule matched %d instances; %d were confirmed by hand on the reference tree — a construct this rule checks has been removed or rewritten beyond recognition (a rule that matches nothing would pass vacuously)", got, want),
+			"each confirmed instance is a place where the property depends on the checked structure; its disappearance must be reviewed")
 	}
 }
 
